@@ -14,6 +14,8 @@ Oracles
        B, P : program memory after LOAD byte-identical to the memory before SAVE
        A    : listing after LOAD / NEW+MERGE identical, whenever typing the listing line by line into a fresh
               session gives the same program (the statement's "re-enters as the same program")
+ (2b) load/save histories inside ONE session (hide_protected on or off) mixing protected and unprotected files, NEW and
+      MERGE: after every step the program just loaded must list, match the file's program and save in every format.
  (3) converter: pcbasic.main('--convert=X', src, dst) in-process against LOAD src + SAVE dst,X in a session,
      for src in B/P/A and X in B/P/A: identical files.
 """
@@ -50,7 +52,8 @@ META = {
                    'thorough': 'cipher: every (position mod 143, byte) pair, encode->decode and decode->encode'},
     'require_counters': {'any': ['cipher_pairs', 'cipher_lengths', 'fmt_B_disk', 'fmt_P_disk', 'fmt_A_disk', 'fmt_B_bound', 'fmt_P_bound', 'fmt_A_bound',
                                  'fmt_B_cas', 'fmt_P_cas', 'fmt_A_cas', 'merge_seen', 'ascii_reenterable', 'ctrl_z_in_string_seen',
-                                 'high_line_numbers_seen', 'long_lines_seen', 'converter_runs', 'corpus_programs', 'protected_hidden_resave_seen']},
+                                 'high_line_numbers_seen', 'long_lines_seen', 'converter_runs', 'corpus_programs', 'protected_hidden_resave_seen',
+                                 'session_steps', 'session_unprotected_after_protected_seen_hidden']},
     'timeout': {'quick': 900, 'thorough': 7200},
 }
 
@@ -61,10 +64,12 @@ def plan(tier, seed):
         shards += [{'kind': 'programs', 'part': i, 'n': 45} for i in range(6)]
         shards += [{'kind': 'corpus', 'part': i, 'parts': 2, 'n': 60} for i in range(2)]
         shards += [{'kind': 'converter', 'part': i, 'n': 8} for i in range(3)]
+        shards += [{'kind': 'sessions', 'part': i, 'n': 20} for i in range(2)]
     else:
         shards += [{'kind': 'programs', 'part': i, 'n': 250} for i in range(20)]
         shards += [{'kind': 'corpus', 'part': i, 'parts': 6, 'n': 400} for i in range(6)]
         shards += [{'kind': 'converter', 'part': i, 'n': 30} for i in range(12)]
+        shards += [{'kind': 'sessions', 'part': i, 'n': 120} for i in range(6)]
     return shards
 
 
@@ -659,11 +664,178 @@ def run_converter(spec, res):
             sb.close()
 
 
+# ----------------------------------------------------------------------------------------------
+# (2b) load/save histories inside ONE session, mixing protected and unprotected files
+
+def run_sessions(spec, res, directed=False):
+    """
+    Several programs are saved in B, P and A format by a helper session.  Then ONE session (hide_protected on or off)
+    performs a history of LOADs (P and non-P in any order, sometimes NEW, MERGE of an A file into an empty program,
+    sometimes a typed line) and after EVERY step the round trip is demanded:
+      * the LOAD reports no error
+      * after loading an unprotected file (B or A) of program k - whatever was loaded before - the program can be
+        listed and saved: listing == listing of k, program image == image of k, SAVE in B, A and P works, the A file
+        holds the listing and the B / P file loads back as program k in a fresh session
+      * after loading a P file with hide_protected on, SAVE ,P works and the file loads back as program k in a fresh
+        session without hide_protected (what a protected program may disclose is C16's business)
+    """
+    from .. import harness
+    rng = random.Random('C15:sessions:directed' if directed else '%s:C15:%s:%s' % (spec['seed'], spec['kind'], spec.get('part', 0)))
+    nhist = 6 if directed else spec['n']
+    for hi in range(nhist):
+        sb = Sandbox()
+        history = []
+        progs = []
+        case = {'history': history, 'programs': progs}
+
+        def viol(key, what):
+            res.violation(key, what + ' [after step %d: %r]' % (len(history), history[-1] if history else None), dict(case))
+
+        try:
+            # ---- helper session: the files ------------------------------------------------------------------
+            info = []
+            k = 0
+            while len(info) < 3 and k < 12:
+                k += 1
+                if directed:
+                    lines = [[b'10 REM round trip', b'20 FOR I%=1 TO 10:PRINT I%*2;:NEXT', b'30 GOTO 10'],
+                             [b'5 PRINT "second"', b'6 DATA 1,2,"three"'], [b'100 A$="x":PRINT A$', b'65529 END']][len(info)]
+                else:
+                    lines, label, special = gen_program(rng, res)
+                    if special or len(lines) > 30:
+                        continue
+                i = len(info)
+                with sb.box() as a:
+                    if a.enter(lines):
+                        continue
+                    core, tail, problems, scanned = core_of(memory(a))
+                    out, listing = pg.list_to_file(a, b'L0.TXT')
+                    if problems or listing is None or any(len(l) > 254 for l in listing):
+                        continue
+                    bad = False
+                    for fmt in 'BPA':
+                        if a.ex(b'SAVE "C:F%d%s"%s' % (i, fmt.encode(), FMT_ARG[fmt]), 20000):
+                            bad = True
+                    if bad:
+                        continue
+                # does the ASCII file re-enter as the same program in a plain fresh session?
+                with sb.box() as t:
+                    a_ok = (not t.ex(b'LOAD "C:F%dA"' % i, 20000)) and core_of(memory(t))[0] == core
+                info.append({'core': core, 'listing': listing, 'a_ok': a_ok})
+                progs.append(lines)
+            if len(info) < 2:
+                continue
+            hide = directed or rng.random() < 0.75
+            nsteps = 10 if directed else rng.randint(4, 12)
+            with sb.box(hide_protected=hide) as b:
+                loaded_p = False
+                for step in range(nsteps):
+                    if directed:
+                        # protected first, then every unprotected format, with and without NEW in between
+                        op = [('load', 0, 'P'), ('load', 1, 'B'), ('load', 0, 'P'), ('load', 1, 'A'), ('load', 2, 'P'), ('new',), ('load', 0, 'B'),
+                              ('load', 1, 'P'), ('merge', 2, 'A'), ('load', 2, 'B')][(step + hi) % 10]
+                    else:
+                        r = rng.random()
+                        i = rng.randrange(len(info))
+                        if r < 0.35:
+                            op = ('load', i, 'P')
+                        elif r < 0.60:
+                            op = ('load', i, 'B')
+                        elif r < 0.80:
+                            op = ('load', i, 'A')
+                        elif r < 0.88:
+                            op = ('new',)
+                        else:
+                            op = ('merge', i, 'A')
+                    if op[0] in ('load', 'merge') and op[2] == 'A' and not info[op[1]]['a_ok']:
+                        continue
+                    if op[0] == 'merge' and hide and loaded_p:
+                        # MERGE into a protected program is refused by design: start from NEW
+                        history.append(['new'])
+                        b.ex(b'NEW', 20000)
+                        loaded_p = False
+                    history.append(list(op))
+                    if op[0] == 'new':
+                        out = b.ex(b'NEW', 20000)
+                        if out:
+                            viol('session:new:error', 'NEW gave %r' % out[:80])
+                            break
+                        loaded_p = False
+                        res.count('session_new_seen')
+                        continue
+                    i, fmt = op[1], op[2]
+                    if op[0] == 'merge':
+                        b.ex(b'NEW', 20000)
+                        out = b.ex(b'MERGE "C:F%dA"' % i, 20000)
+                    else:
+                        out = b.ex(b'LOAD "C:F%d%s"' % (i, fmt.encode()), 20000)
+                    after_p = loaded_p
+                    res.count('session_steps')
+                    res.case((hi, step, tuple(map(str, op)), hide, spec.get('seed'), spec.get('part')))
+                    if after_p and fmt != 'P':
+                        res.count('session_unprotected_after_protected_seen' + ('_hidden' if hide else ''))
+                    where = '%s-of-%s-file%s' % (op[0], 'protected' if fmt == 'P' else 'unprotected',
+                                                 '-after-protected-file-in-same-session' if after_p else '')
+                    if out:
+                        viol('session:%s:error' % where, '%s gave %r (hide_protected=%s)' % (op[0], out[:80], hide))
+                        break
+                    ref = info[i]
+                    if fmt == 'P' and hide:
+                        loaded_p = True
+                        out = b.ex(b'SAVE "C:RP",P', 20000)
+                        if out:
+                            viol('session:resave-protected:error', 'SAVE ,P of a protected program gave %r' % out[:80])
+                            break
+                        check = [('RP', 'P')]
+                    else:
+                        loaded_p = False
+                        if core_of(memory(b))[0] != ref['core']:
+                            viol('session:%s:program-memory-differs' % where, 'program image is not that of the file loaded (hide_protected=%s)' % hide)
+                            break
+                        out, listing = pg.list_to_file(b, b'L1.TXT')
+                        if out or listing != ref['listing']:
+                            viol('session:%s:listing-differs-or-refused' % where, 'LIST gave %r, %s lines (hide_protected=%s)' % (
+                                out[:60], None if listing is None else len(listing), hide))
+                            break
+                        check = []
+                        for f2 in 'BAP':
+                            out = b.ex(b'SAVE "C:R%s"%s' % (f2.encode(), FMT_ARG[f2]), 20000)
+                            if out:
+                                viol('session:%s:save-%s-refused' % (where, f2), 'SAVE in format %s gave %r (hide_protected=%s)' % (f2, out[:60], hide))
+                                check = None
+                                break
+                            check.append(('R' + f2, f2))
+                        if check is None:
+                            break
+                        if rprog.parse_listing_file(pg.read_file(b, 'RA.BAS')) != ref['listing']:
+                            viol('session:%s:ascii-file-differs' % where, 'SAVE ,A wrote another listing')
+                            break
+                        check = [c for c in check if c[1] != 'A']
+                        check = [rng.choice(check)]
+                    # the re-saved tokenised / protected file loads back as the same program in a fresh plain session
+                    # (outside the `with b` session's mount? the mount is shared: file names RB / RP)
+                    for name, f2 in check:
+                        with sb.box() as f:
+                            out = f.ex(b'LOAD "C:%s"' % name.encode(), 20000)
+                            if out or core_of(memory(f))[0] != ref['core']:
+                                viol('session:%s:resaved-%s-file-does-not-load-back' % (where, f2), 'LOAD of the re-saved file gave %r' % out[:60])
+                                break
+                res.count('session_histories')
+                res.count('session_histories_hide_protected' if hide else 'session_histories_plain')
+        except harness.Internal as e:
+            res.violation(e.key, str(e), dict(case))
+        finally:
+            sb.close()
+
+
 def run_shard(spec, res):
     kind = spec['kind']
+    if kind == 'sessions':
+        return run_sessions(spec, res)
     if kind == 'cipher':
         return run_cipher(spec, res)
     if kind == 'directed':
+        run_sessions(spec, res, directed=True)
         return run_directed(spec, res)
     if kind == 'programs':
         return run_programs(spec, res)
